@@ -25,11 +25,19 @@ type WordRenderer struct {
 	source    []byte
 	listLevel int // 当前列表嵌套级别
 	listNumPr *document.NumberingProperties // 当前列表的编号属性（第一个列表项创建，其余列表项共用）
+	listOrdered bool // 当前列表是否为有序列表
+	quoteDepth int // 当前引用块嵌套级别
 }
 
 // Render 渲染AST为Word文档
 func (r *WordRenderer) Render(doc ast.Node) error {
-	return ast.Walk(doc, func(node ast.Node, entering bool) (ast.WalkStatus, error) {
+	return r.renderNode(doc)
+}
+
+// renderNode 渲染一个块节点及其子节点。列表项和引用块用它依次渲染自己的子块，
+// 这样容器中的段落、代码块、表格、公式、嵌套列表与顶层的同类节点走同一条路径
+func (r *WordRenderer) renderNode(root ast.Node) error {
+	return ast.Walk(root, func(node ast.Node, entering bool) (ast.WalkStatus, error) {
 		if !entering {
 			return ast.WalkContinue, nil
 		}
@@ -43,6 +51,10 @@ func (r *WordRenderer) Render(doc ast.Node) error {
 			return r.renderHeading(n)
 
 		case *ast.Paragraph:
+			return r.renderParagraph(n)
+
+		case *ast.TextBlock:
+			// 紧凑列表项中不是第一个子块的文本块（例如跟在标题、嵌套列表之后）：与段落相同
 			return r.renderParagraph(n)
 
 		case *ast.List:
@@ -183,14 +195,17 @@ func inheritRunProperties(props, base *document.RunProperties) {
 }
 
 // renderParagraph 渲染段落
-func (r *WordRenderer) renderParagraph(node *ast.Paragraph) (ast.WalkStatus, error) {
+func (r *WordRenderer) renderParagraph(node ast.Node) (ast.WalkStatus, error) {
 	// 检查段落是否为空
 	if !node.HasChildren() {
 		return ast.WalkSkipChildren, nil
 	}
 
-	// 创建段落
+	// 创建段落；引用块中的段落使用Quote样式
 	para := r.doc.AddParagraph("")
+	if r.quoteDepth > 0 {
+		para.SetStyle("Quote")
+	}
 
 	// 处理段落内容
 	r.renderInlineContent(node, para)
@@ -229,11 +244,6 @@ func (r *WordRenderer) renderInlineContent(node ast.Node, para *document.Paragra
 // 这样 **粗体中的 _斜体_、`代码` 和换行** 都不会丢失
 func (r *WordRenderer) renderInlines(node ast.Node, para *document.Paragraph, f inlineFormat) {
 	for child := node.FirstChild(); child != nil; child = child.NextSibling() {
-		if child.Type() == ast.TypeBlock {
-			// 列表项、引用块中的块节点：其行内内容依次写入同一个段落
-			r.renderInlines(child, para, f)
-			continue
-		}
 		switch n := child.(type) {
 		case *ast.Text:
 			text := r.textValue(n)
@@ -320,14 +330,21 @@ func addInlineText(para *document.Paragraph, text string, f inlineFormat) {
 // renderList 渲染列表
 func (r *WordRenderer) renderList(node *ast.List) (ast.WalkStatus, error) {
 	r.listLevel++
-	outer := r.listNumPr
-	r.listNumPr = nil // 每个列表使用自己的编号实例
-	defer func() { r.listLevel--; r.listNumPr = outer }()
+	outer, outerOrdered := r.listNumPr, r.listOrdered
+	// 每个列表使用自己的编号实例。编号定义只有9个级别，嵌套更深的列表都显示在最后一级上：
+	// 它与外层列表种类相同时沿用外层的编号实例，不再为每一层各建一个
+	if r.listLevel <= 9 || outer == nil || outerOrdered != node.IsOrdered() {
+		r.listNumPr = nil
+	}
+	r.listOrdered = node.IsOrdered()
+	defer func() { r.listLevel--; r.listNumPr, r.listOrdered = outer, outerOrdered }()
 
 	// 处理列表项
 	for child := node.FirstChild(); child != nil; child = child.NextSibling() {
 		if listItem, ok := child.(*ast.ListItem); ok {
-			r.renderListItem(listItem)
+			if _, err := r.renderListItem(listItem); err != nil {
+				return ast.WalkStop, err
+			}
 		}
 	}
 
@@ -357,6 +374,9 @@ func (r *WordRenderer) renderListItem(node *ast.ListItem) (ast.WalkStatus, error
 	if level < 0 {
 		level = 0
 	}
+	if level > 8 {
+		level = 8 // 编号定义只有 0-8 共 9 个级别
+	}
 	var para *document.Paragraph
 	if r.listNumPr != nil && r.listNumPr.NumID != nil {
 		// 同一个列表的后续列表项共用第一个列表项的编号实例
@@ -376,20 +396,38 @@ func (r *WordRenderer) renderListItem(node *ast.ListItem) (ast.WalkStatus, error
 		r.listNumPr = para.Properties.NumberingProperties
 	}
 
-	// 列表项的文本逐段写入，保留行内格式和换行
-	r.renderInlines(node, para, inlineFormat{})
+	// 列表项的第一个段落写入列表段落，保留行内格式和换行
+	rest := node.FirstChild()
+	switch rest.(type) {
+	case *ast.Paragraph, *ast.TextBlock:
+		r.renderInlines(rest, para, inlineFormat{})
+		rest = rest.NextSibling()
+	}
+
+	// 其余子块依次渲染在列表段落之后，不并入它的文本：嵌套列表的列表项是下一级的列表段落
+	// （每个列表有自己的编号实例），后续段落是没有符号的普通段落，
+	// 代码块、表格、公式、引用块与顶层的渲染方式相同
+	for ; rest != nil; rest = rest.NextSibling() {
+		if err := r.renderNode(rest); err != nil {
+			return ast.WalkStop, err
+		}
+	}
 
 	return ast.WalkSkipChildren, nil
 }
 
 // renderBlockquote 渲染引用块
 func (r *WordRenderer) renderBlockquote(node *ast.Blockquote) (ast.WalkStatus, error) {
-	// 创建引用段落，使用Quote样式
-	para := r.doc.AddParagraph("")
-	para.SetStyle("Quote")
+	// 引用块的子块依次渲染：每个段落成为一个Quote样式的段落（见renderParagraph），
+	// 其中的代码块、表格、公式、列表和嵌套的引用块与顶层的渲染方式相同，文本不会并成一段
+	r.quoteDepth++
+	defer func() { r.quoteDepth-- }()
 
-	// 引用的文本逐段写入，保留行内格式和换行
-	r.renderInlines(node, para, inlineFormat{})
+	for child := node.FirstChild(); child != nil; child = child.NextSibling() {
+		if err := r.renderNode(child); err != nil {
+			return ast.WalkStop, err
+		}
+	}
 
 	return ast.WalkSkipChildren, nil
 }
